@@ -29,6 +29,7 @@ EDGES = [
     "FalsyClassEdge",  # the class object itself is falsy
     "FrozenEdge",  # read-only v1 / v2: ends cannot be re-pointed after construction
     "JoiningEdge",  # its __init__ calls back into the library (add_to_universe)
+    "BondEdge",  # value equality: a--b == b--a
 ]
 
 
